@@ -183,7 +183,9 @@ def v4_engine(run):
     vcalls = [nd for nd, c in cfg.call_nodes("valid")
               if [unparse(a) for a in c.args] == ["typ", "value"]] + \
              [nd for nd, c in cfg.call_nodes("validate_value_type")
-              if [unparse(a) for a in c.args] == ["value", "spec"]]
+              if len(c.args) == 2 and unparse(c.args[0]) == "value" and
+              {(a.kind, a.text) for a in Origins(cfg).of(c.args[1], nd.id)
+               if a.kind != "const"} == {("attr", "typ.c_value_type")}]
     run.check(len(vcalls) == 2, "V4", fi.qual + "::typed-validation",
               "valid(typ, value) / validate_value_type(value, spec)",
               "typed validation calls changed (%d found)" % len(vcalls),
@@ -540,8 +542,12 @@ def v10_duration_needs_content(run):
                         isinstance(x.ctx, ast.Load):
                     return True
         return False
+    # the designator loop: the loop over D_FORMAT whose body looks at the
+    # input (a comprehension over the same table builds the result dict)
     loops = [n for n in cfg.nodes if n.kind == "iter" and
-             isinstance(n.ast.iter, ast.Name) and n.ast.iter.id == "D_FORMAT"]
+             isinstance(n.ast.iter, ast.Name) and n.ast.iter.id == "D_FORMAT"
+             and any(isinstance(x, ast.Name) and x.id == p
+                     for st in n.ast.body for x in ast.walk(st))]
     run.require(len(loops) == 1, "parse_duration: the loop over D_FORMAT "
                 "vanished")
     it = loops[0]
